@@ -100,9 +100,25 @@ func (nb *nativeBuild) run(m *interp.ReplayModel, saveDir string) *nativeResult 
 }
 
 func runNativeBin(bin, modelPath string, timeout time.Duration) *nativeResult {
-	cmd := exec.Command(bin, "-test.run", "^TestReplay$", "-test.v", "-test.timeout", "120s")
+	return runNativeBinEnv(bin, modelPath, timeout)
+}
+
+// stress re-runs a concurrent harness natively up to n times in one process (real goroutines, no steering).
+func (nb *nativeBuild) stress(m *interp.ReplayModel, saveDir string, n int) *nativeResult {
+	mp := filepath.Join(nb.dir, "model.json")
+	if saveDir != "" {
+		os.MkdirAll(saveDir, 0o755)
+		mp = filepath.Join(saveDir, "model.json")
+	}
+	b, _ := json.MarshalIndent(m, "", " ")
+	os.WriteFile(mp, b, 0o644)
+	return runNativeBinEnv(nb.bin, mp, 300*time.Second, fmt.Sprintf("VX_STRESS=%d", n))
+}
+
+func runNativeBinEnv(bin, modelPath string, timeout time.Duration, extraEnv ...string) *nativeResult {
+	cmd := exec.Command(bin, "-test.run", "^TestReplay$", "-test.v", "-test.timeout", "600s")
 	cmd.Dir = repoRoot
-	cmd.Env = append(os.Environ(), "VX_MODEL="+modelPath, "VX_REPO="+repoRoot)
+	cmd.Env = append(append(os.Environ(), "VX_MODEL="+modelPath, "VX_REPO="+repoRoot), extraEnv...)
 	var buf bytes.Buffer
 	cmd.Stdout = &buf
 	cmd.Stderr = &buf
@@ -115,7 +131,11 @@ func runNativeBin(bin, modelPath string, timeout time.Duration) *nativeResult {
 		cmd.Process.Kill()
 		<-done
 	}
-	res := &nativeResult{Output: buf.String()}
+	out := buf.String()
+	if len(out) > 1<<20 {
+		out = out[len(out)-(1<<20):]
+	}
+	res := &nativeResult{Output: out}
 	var tags string
 	_ = tags
 	for _, line := range strings.Split(res.Output, "\n") {
